@@ -230,17 +230,60 @@ func c05BulkSwaps(c *rep.Ctx) {
 			}
 		}
 		c.Check("bulk-swap", "chain.(*ChainDB).swapChainMapping|one-bulk", f.Pos(), ok, "the whole height mapping of the new branch and the latest pointer go into one bulk; the in-memory tip moves to the new tip only after the flush")
-		// every block of the new branch is mapped
-		cov := false
+		// every block of the new branch is mapped (any loop that visits all elements)
+		cov, descending := false, false
+		var loopBody *ast.BlockStmt
 		ast.Inspect(f.Body, func(n ast.Node) bool {
-			if fs, isFor := n.(*ast.ForStmt); isFor {
+			switch fs := n.(type) {
+			case *ast.ForStmt:
 				if c05LoopCoversDescendingParam(info, fs, f.ParamObj(0)) && containsCallTo(info, fs.Body, "types.BlockNoToBytes") {
-					cov = true
+					cov, descending, loopBody = true, true, fs.Body
+				}
+			case *ast.RangeStmt:
+				if an.ObjOf(info, fs.X) == f.ParamObj(0) && f.ParamObj(0) != nil && containsCallTo(info, fs.Body, "types.BlockNoToBytes") {
+					cov, descending, loopBody = true, false, fs.Body
 				}
 			}
 			return true
 		})
 		c.Check("bulk-swap", "chain.(*ChainDB).swapChainMapping|every-block", f.Pos(), cov, "a height entry is written for every block of the new branch")
+		// the latest pointer names the tip, element 0 of the new branch (the in-memory tip is set to the same element)
+		okLatest := false
+		for _, s := range g.CallsTo(c05BulkSet) {
+			if !containsCallTo(info, s.Call.Args[0], "types/dbkey.LatestBlock") {
+				continue
+			}
+			val := s.Call.Args[1]
+			tipDirect := func(e ast.Node) bool {
+				found := false
+				ast.Inspect(e, func(n ast.Node) bool {
+					if ix, isIx := n.(*ast.IndexExpr); isIx && an.ObjOf(info, ix.X) == f.ParamObj(0) {
+						if tv, has := info.Types[ix.Index]; has && tv.Value != nil && tv.Value.ExactString() == "0" {
+							found = true
+						}
+					}
+					return true
+				})
+				return found
+			}
+			if tipDirect(val) {
+				okLatest = true
+				continue
+			}
+			// a variable assigned inside the covering loop: its last value is that of the last element visited,
+			// which is element 0 only for the descending loop
+			if o := an.ObjOf(info, val); o != nil && loopBody != nil && descending && !g.InLoop(s.Node) {
+				assignedInLoop := false
+				ast.Inspect(loopBody, func(n ast.Node) bool {
+					if st, isSt := n.(ast.Stmt); isSt && an.Assigns(info, st, o) {
+						assignedInLoop = true
+					}
+					return true
+				})
+				okLatest = assignedInLoop
+			}
+		}
+		c.Check("bulk-swap", "chain.(*ChainDB).swapChainMapping|latest-is-tip", f.Pos(), okLatest, "the persisted latest pointer is the number of the new branch's tip (element 0), the same block the in-memory tip is set to")
 	}
 	if f := c.Fn("chain.(*ChainDB).dropBlock"); f != nil {
 		g := f.Graph()
